@@ -17,6 +17,7 @@ variable {E : Type} [NormedAddCommGroup E] [InnerProductSpace ℝ E]
     block arrays = product spaces): exact arithmetic embedded in the extended reals -/
 noncomputable def envOfSpace (f : E → ℝ) (grad : E → E) (prox : E → XR ℝ → E)
     (smul : XR ℝ → E → E) : Env E (XR ℝ) where
+  sdiv := fun v c => smul (1 / c) v
   f := fun x => fin (f x)
   grad := grad
   prox := prox
